@@ -16,7 +16,7 @@ import subprocess
 import sys
 import time
 
-VERIF = "/verif"
+VERIF = os.path.dirname(os.path.dirname(os.path.abspath(__file__)))   # /verif (or a snapshot of it)
 REPO = os.environ.get("VERIF_REPO", "/repo")   # scratch worktrees for mutation self-tests only
 OUT = os.environ.get("VERIF_OUT", VERIF)        # where evidence/ and replays/ are written
 COQ = os.path.join(VERIF, "coq")
